@@ -302,6 +302,22 @@ claim(
     "DESIGN.md §2 C15",
 )
 
+claim(
+    "C08",
+    "enumeration of store-back growth sites over interface slots with a per-site discharge by guard-fact "
+    "dominance, verified strip partner, type change, or trigger consumption",
+    "Decides a necessary part: every statement that reads an interface slot (typ / doc / default), wraps it "
+    "with a normalisation artefact (Optional[..], List[..], terminal full stop, ' Defaults to ', back-tick "
+    "quoting, [PK]/[FK(..)] markers) and stores it back is either dominated by an atomic test that the "
+    "artefact is absent, paired with a sibling that strips it (frozen table, re-verified each run), only "
+    "reachable for AST-valued input (type changes to str), or removes its own trigger in the same block. An "
+    "undischarged growth site is exactly what makes round n+1 differ from round n.",
+    "NOT decided: idempotence of the value-level normalisers (parse_adhoc_doc_for_typ's prose heuristics, "
+    "quoting of arbitrary defaults) — the equality of round n and n+1 itself. Emission templates and values "
+    "freshly derived from source syntax are not growth sites.",
+    "DESIGN.md §2 C08",
+)
+
 
 def main():
     """write MANIFEST.json"""
